@@ -361,6 +361,9 @@ func (c *Ctx) Finish(explanation string, assumptions []string, trusted []string)
 			cov[k] = v
 		}
 	}
+	if assumptions == nil {
+		assumptions = []string{}
+	}
 	ev := evidence{PropertyID: c.Prop, Tier: c.Tier, Seed: 0, Level: "other", Coverage: cov, Assume: assumptions,
 		Wall: time.Since(c.start).Seconds(), Violations: nViol}
 	evDir := filepath.Join(c.VerifD, "evidence")
